@@ -137,6 +137,8 @@ def check_accessors(ctx, led, v, rules=("total", "pure", "fresh"), prefix="C18")
                     writes.append((e, "stores into a dict held by the object"))
                 elif e.kind == "map_mutation" and (e.data.get("map") is None or e.data.get("map") in held):
                     writes.append((e, "mutates a dict held by the object (%s)" % e.data.get("what")))
+                elif e.kind == "iterator_consumed" and e.data.get("list") in held:
+                    writes.append((e, "consumes an iterator stored on the object (map/filter/zip result): the next call sees it empty"))
                 elif e.kind == "global_write":
                     writes.append((e, "writes module-level state (%s)" % e.data.get("what")))
             for e, what in writes:
